@@ -18,6 +18,8 @@ func runCase(c kv, w *bufio.Writer) {
 		lexCase(c, w)
 	case "parse":
 		parseCase(c, w)
+	case "run":
+		runHistoryCase(c, w)
 	default:
 		fmt.Fprintf(w, "id=%s\tunsupported=%s\n", c["id"], c["kind"])
 	}
